@@ -226,6 +226,7 @@ func (s *verifHoldCtlSuite) TestVerifHoldCtlRun(c *C) {
 
 	for i := 0; i < n; i++ {
 		s.caseN = i
+		dirs.SetRootDir(c.MkDir())
 		s.st = state.New(nil)
 		s.st.Lock()
 		ifacerepo.Replace(s.st, interfaces.NewRepository())
